@@ -789,6 +789,75 @@ func sharedContextCase(t *testing.T, idx int64, r *rand.Rand) {
 	rt.Distinct(fmt.Sprintf("shared|%v", cfg))
 }
 
+// lastCompletionAtPush: the only holder of a queue limiter completes while a newcomer is on its way into the backlog
+// (verif points before / after the push).  Once every granted listener has completed nothing is left behind: the
+// backlog is empty, every count is zero and nobody is still inside Acquire.
+func lastCompletionAtPush(t *testing.T, idx int64, r *rand.Rand) {
+	ord := []limiter.QueueOrdering{limiter.OrderingFIFO, limiter.OrderingLIFO, ""}[r.IntN(3)]
+	point := []string{"queue.before_push", "queue.after_push"}[r.IntN(2)]
+	timeout := []time.Duration{-1, time.Hour}[r.IntN(2)]
+	yields := []int{200, 2000}[r.IntN(2)]
+	var sig string
+	var detail rt.J
+	bubble(t, func(t *testing.T) {
+		st := strategy.NewSimpleStrategy(1)
+		dl, err := limiter.NewDefaultLimiter(limit.NewFixedLimit("c02", 1, nil), 1e9, 1e9, 1e5, 100, st, limit.NoopLimitLogger{}, core.EmptyMetricRegistryInstance)
+		if err != nil {
+			panic(err)
+		}
+		q := limiter.NewQueueBlockingLimiterFromConfig(dl, limiter.QueueLimiterConfig{Ordering: ord, MaxBacklogSize: 5, MaxBacklogTimeout: timeout})
+		holder, ok := q.Acquire(context.Background())
+		if !ok {
+			panic("c02: first unit refused")
+		}
+		var fired atomic.Bool
+		limiter.SetVerifHook(func(name string) {
+			if name == point && fired.CompareAndSwap(false, true) {
+				var done atomic.Bool
+				go func() { holder.OnSuccess(); done.Store(true) }()
+				for i := 0; i < yields && !done.Load(); i++ {
+					runtime.Gosched()
+				}
+			}
+		})
+		defer limiter.SetVerifHook(nil)
+		var done atomic.Bool
+		var l core.Listener
+		var got bool
+		go func() { l, got = q.Acquire(context.Background()); done.Store(true) }()
+		synctest.Wait()
+		if !fired.Load() {
+			holder.OnSuccess()
+			synctest.Wait()
+		}
+		if done.Load() && got && l != nil {
+			l.OnSuccess()
+			synctest.Wait()
+		}
+		// every granted listener has completed
+		if b, g, bl := st.GetBusyCount(), dl.VerifInFlight(), q.VerifBacklogLen(); b != 0 || g != 0 || bl != 0 || !done.Load() {
+			sig, detail = "something-left-behind-after-every-grant-completed", rt.J{"busy": b, "inflight_gauge": g, "backlog": bl, "newcomer_returned": done.Load()}
+			// let the stranded caller go so that the bubble can end
+			if l2, ok2 := q.Acquire(context.Background()); ok2 {
+				l2.OnSuccess()
+			}
+			synctest.Wait()
+			if done.Load() && got && l != nil {
+				l.OnSuccess()
+			}
+			synctest.Wait()
+		}
+	})
+	rt.Count("last_completion_at_push_cases", 1)
+	cfg := rt.J{"ordering": ord, "point": point, "backlog_timeout": timeout.String(), "pause_yields": yields}
+	if sig != "" {
+		detail["config"] = cfg
+		rt.Violation("C02/queue/"+sig, idx, detail)
+		return
+	}
+	rt.Distinct(fmt.Sprintf("lcap|%v", cfg))
+}
+
 // ------------------------------------------------------------------ D: pools, behaviourally
 
 func poolCase(t *testing.T, idx int64, r *rand.Rand) {
@@ -891,6 +960,8 @@ func TestCheck(t *testing.T) {
 			gaugeBursts(idx, r)
 		case m == 27:
 			sharedContextCase(t, idx, r)
+		case m == 26:
+			lastCompletionAtPush(t, idx, r)
 		case m < 8:
 			sequentialCase(idx, r)
 		case m < 28:
